@@ -22,6 +22,24 @@ CLAIMED = {
             "DESIGN.md §3 C09", "path-sensitive constant propagation over go/ssa with a zone domain, exhaustive over abstract score regions"),
 }
 
+CLAIMED.update({
+    "C02": ("other",
+            "Decides, for every move kind and all squares/positions (symbolically), the structural content of move application: the "
+            "(square,colour,piece) flips Position.Move applies on every ok path equal the FIDE table; the stored e.p. target and rights "
+            "are EnPassantTarget(m) and old &^ CastlingRightsLost(m); EnPassantTarget/EnPassantCapture geometry for all 64 destination "
+            "squares; CastlingRightsLost over all classes of (From,To) one move can connect; the four rotated views and the per-piece/"
+            "per-colour sets are only ever updated together (field-write ownership + shape of xor/RotatedBitboard.Xor); the receiver is "
+            "never written. It does not decide the slider tables' content (C06) or that legality queries are right.",
+            "DESIGN.md §3 C02", "abstract interpretation of Position.Move per move kind (toggle effects mod 2), exhaustive constant propagation of the special-move helpers, field-write ownership"),
+    "C07": ("other",
+            "Complete over move kinds: for each of the 9 kinds (castles per colour) the XOR terms ZobristTable.Move applies are compared, "
+            "as multisets mod 2 of table entries, with Hash(after) xor Hash(before), where after/before differ by exactly what "
+            "Position.Move does on its ok paths (read from the code, not from a table) and Hash's term structure is established from "
+            "ZobristTable.Hash itself. Plus: who stores node.hash and from which (pre-move) values; table dimensions and constructor "
+            "coverage, including that enpassant[0] is the zero key. The probabilistic no-collision clause is not decided.",
+            "DESIGN.md §3 C07", "symbolic XOR-term comparison of incremental vs from-scratch hash per move kind via abstract interpretation over go/ssa"),
+})
+
 NOT_APPLICABLE = {
     "C11": "Transparency of the transposition table is a numeric equality between two complete searches over all positions x depths x table sizes x search sequences; no sound static abstraction in reach bounds it. Its shape-visible clauses are decided under C12 (no store after cancellation, exact bound only after a full loop), C04 (root exits) and C17 (slot discipline).",
 }
